@@ -251,6 +251,6 @@ def _shared_c10(ctx):
     from .c12 import label_sinks
     from .c19 import lifecycle_of
     ctx.rule("R10.4", "fit does not depend on state left by an earlier fit and prediction writes no state (shared with C19 R19.3 / R19.4)")
-    lifecycle_of(ctx, [EG, IT, TO], {"R19.3": "R10.4", "R19.4": "R10.4", "R19.6": "R10.4"})
+    lifecycle_of(ctx, [EG, IT, TO], {"R19.3": "R10.4", "R19.4": "R10.4", "R19.6": "R10.4", "R19.8": "R10.4"})
     ctx.rule("R10.5", "no caller-labelled pandas value reaches a label-aligning operation on the paths of this property (shared with C12 R12.1)")
     label_sinks(ctx, "R10.5", [(EG + ".predict", EG), (IT + ".predict", IT)])
